@@ -32,6 +32,7 @@ Modelled rather than verified (the theorems do not speak about these):
   (`FloatCachePolicy::get`) is modelled where `traverse_edge` reaches it (`cacheAccepts`).
 -/
 import Compass.Gen.Decisions
+import Compass.Gen.FnsC08
 import Compass.Proofs.Num
 import Compass.Model.Energy
 import Compass.Proofs.Energy
@@ -1218,6 +1219,21 @@ theorem src_phev_battery_left {α : Type} [Field α] [LinearOrder α] [IsStrictO
     (Energy.Vehicle.phev sus dep b).cacheInUse c s =
       if phev_battery_left.num s.soc (zero : α) = some true then c.main else c.sustain := by
   simp [Energy.Vehicle.cacheInUse, phev_battery_left, Rel.num]
+
+
+/-! ### Generated function bodies
+
+`tools/gen_fns.py` re-translates the body of the Rust function on every run into `Compass/Gen/FnsC08.lean`
+(conventions in the header of the tool).  Each `gen_*_eq` theorem below says that the generated definition
+*is* the hand-written model function the property theorems are about.  A source change to the function
+changes the generated definition and the proof stops checking (a body the translator no longer recognises is
+not emitted: the theorem no longer elaborates). -/
+
+theorem gen_as_soc_percent_eq {α : Type} [Field α] [LinearOrder α] [IsStrictOrderedRing α] [Lit α] [LawfulLit α] (remaining max : α) :
+    Gen.as_soc_percent remaining max = Energy.asSocPercent remaining max := rfl
+
+theorem gen_soc_from_battery_and_delta_eq {α : Type} [Field α] [LinearOrder α] [IsStrictOrderedRing α] [Lit α] [LawfulLit α] (start used max : α) :
+    Gen.soc_from_battery_and_delta start used max = Energy.socFromBatteryAndDelta start used max := rfl
 
 end C08
 end Compass
